@@ -1,3 +1,4 @@
+mod c10s;
 mod c12;
 mod c16s;
 mod c22s;
@@ -7,6 +8,9 @@ use vkit::{Check, Level};
 fn main() {
     // helper mode for vcrash's C22 (thread schedules of gix-lock): one scenario per process
     let args: Vec<String> = std::env::args().collect();
+    if args.get(1).map(String::as_str) == Some("--c10-sched") {
+        std::process::exit(c10s::run_child(args.get(2).map_or("", String::as_str)));
+    }
     if args.get(1).map(String::as_str) == Some("--c16-sched") {
         std::process::exit(c16s::run_child(args.get(2).map_or("", String::as_str)));
     }
